@@ -290,6 +290,9 @@ DeserForms == { [f |-> "json seq -> Locked<HeapByteArray<32>>",   locks |-> 1],
                 [f |-> "bincode bytes -> Locked<HeapByteArray<32>>", locks |-> 1],
                 [f |-> "json seq -> LockedBytes",                  locks |-> 1],
                 [f |-> "bincode bytes -> LockedBytes",             locks |-> 1],
+                \* a deserializer that announces the sequence length (size_hint = Some(n): serde's SeqDeserializer, CBOR, MessagePack)
+                [f |-> "hinted seq -> Locked<HeapByteArray<32>>",  locks |-> 1],
+                [f |-> "hinted seq -> LockedBytes",                locks |-> 1],
                 [f |-> "json -> LockedKeyPair",                    locks |-> 2],
                 [f |-> "bincode -> LockedKeyPair",                 locks |-> 2] }
 Deserialize(df) ==
